@@ -47,6 +47,12 @@ var leafSpecs = []leafSpec{
 	{"validateRequests", "ifret", "ErrRscpDataLimitExceeded", "validateRequests_tooLong", []string{"messagesWideSize(messages)"}},
 	{"Message.valueSize", "ifhas", "length() == 0", "valueSize_isVariable", []string{"m.DataType.length()", "m.DataType"}},
 	{"Message.size", "ifhas", "length() == 0", "size_isVariable", []string{"m.DataType.length()", "m.DataType"}},
+	{"ClientConfig.check", "ifhas", "len(c.Address) == 0", "check_noAddress", []string{"len(c.Address)"}},
+	{"ClientConfig.check", "ifhas", "len(c.Username) == 0", "check_noUsername", []string{"len(c.Username)"}},
+	{"ClientConfig.check", "ifhas", "len(c.Password) == 0", "check_noPassword", []string{"len(c.Password)"}},
+	{"ClientConfig.check", "ifhas", "len(c.Key) == 0", "check_noKey", []string{"len(c.Key)"}},
+	{"ClientConfig.check", "ifhas", "len(missing) > 0", "check_anyMissing", []string{"len(missing)"}},
+	{"ClientConfig.check", "ifassign", "HeartbeatInterval", "check_heartbeatUnset", []string{"c.HeartbeatInterval"}},
 	{"ClientConfig.check", "ifassign", "Port", "check_portUnset", []string{"c.Port"}},
 	{"ClientConfig.check", "ifassign", "ConnectionTimeout", "check_connTimeoutUnset", []string{"c.ConnectionTimeout"}},
 	{"ClientConfig.check", "ifassign", "SendTimeout", "check_sendTimeoutUnset", []string{"c.SendTimeout"}},
